@@ -602,6 +602,8 @@ def matrix_data_py(m):
         return (list(tt), list(dd))
     if len(ec) < len(dd):
         return None
+    if len(ec) != len(dd) or len(tt) != len(dd):          # 7d3c5fe (finding C16-F4): the three lengths must agree
+        return None
     du, di = [], []
     for i, e in enumerate(ec):
         if e > 0:
